@@ -249,6 +249,21 @@ def run(ctx):
         if sites == 0:
             raise AnalysisError(f"{q}: no positional binding site recognised (unknown idiom)", f"{mod.rel}:{q}")
 
+    # every other count/position comparison between the argument tuple and the parameters must be kind-aware too
+    for mod, q in ((tm, "hash_args_eval"), (sm, "get_arg_defaults")):
+        fn = mod.func(q)
+        for n in ast.walk(fn):
+            if isinstance(n, ast.Compare) and "len(args)" in src(n) and ("parameters" in src(n) or "len(kwargs)" in src(n)):
+                par = mod.parent.get(n)
+                conj = par.values if isinstance(par, ast.BoolOp) and isinstance(par.op, ast.And) else [n]
+                aware = any(".kind" in src(a) for a in conj)
+                r4.check(aware, f"{mod.rel}:{q}:{src(n)}", f"`{src(n)}` compares the number of given arguments with the number of parameters without consulting parameter kinds: with *args/**kwargs surplus values are counted although the variadic parameter absorbs them", mod.rel, n.lineno)
+    gad = sm.func("get_arg_defaults")
+    rets = [r for r in ast.walk(gad) if isinstance(r, ast.Return)]
+    loops = [n for n in ast.walk(gad) if isinstance(n, ast.For) and "parameters" in src(n.iter)]
+    ok = len(rets) == 1 and len(loops) == 1 and isinstance(rets[0].value, ast.Name) and rets[0].lineno > loops[0].end_lineno
+    r4.check(ok, f"{sm.rel}:get_arg_defaults:single-exit", "get_arg_defaults can return before every parameter was examined (fast path): the default of an unbound defaulted parameter is then missing from the evaluated arguments, so passing it explicitly changes the key", sm.rel, gad.lineno)
+
     # ---- C15.5 defaults merged under explicit kwargs -------------------------------
     r5 = ctx.rule("C15.5", "default arguments are merged under explicit keyword arguments before the job is keyed", floor=1)
     ea = sm.func("Scheduler._evaluate_apply")
